@@ -65,7 +65,26 @@ KEY = se.KEY
 def plain_datasets():
     return [{"kind": "plain", "flat": True, "gzip": True},
             {"kind": "plain", "flat": True, "gzip": False},
-            {"kind": "plain", "flat": False, "gzip": True}]
+            {"kind": "plain", "flat": False, "gzip": True},
+            # chunk contents that start with the gzip / zlib magic numbers
+            # or are complete compressed streams of other data
+            {"kind": "plain", "flat": True, "gzip": False, "magic": True},
+            {"kind": "plain", "flat": True, "gzip": True, "magic": True}]
+
+
+_GZ_STREAM = None
+
+
+def plain_payload(ds, i):
+    global _GZ_STREAM
+    if not ds.get("magic"):
+        return bytes(se.payload(i)) * 3
+    if _GZ_STREAM is None:
+        import gzip
+        _GZ_STREAM = gzip.compress(b"not what was stored", mtime=0)
+    tab = [b"\x1f\x8b\x08\x00", _GZ_STREAM, b"\x1f\x8b",
+           se.MAGIC_PAYLOADS[2], b"\x78\x9c", _GZ_STREAM + b"tail"]
+    return tab[i % len(tab)] + bytes([i])
 
 
 def sharded_datasets(tier):
@@ -137,8 +156,8 @@ def build(ds, root):
         chunks = se.chunk_list([3, 2, 1], 1)
         for i, cc, cid in chunks:
             if i != 4:          # chunk 4 stays missing
-                acc.store_chunk(bytes(se.payload(i)) * 3, KEY, cc)
-        return [(KEY, cc, bytes(se.payload(i)) * 3 if i != 4 else None)
+                acc.store_chunk(plain_payload(ds, i), KEY, cc)
+        return [(KEY, cc, plain_payload(ds, i) if i != 4 else None)
                 for i, cc, cid in chunks]
     mult = ds.get("mult", 1)
     if ds.get("foreign"):
